@@ -192,7 +192,7 @@ def run(ctx):
     # byte; (b) D.expected = spec_value; (c) every path's value above = spec_value; plus: the implementation's binary
     # tape of the rendering = flat_doc.
     from props import spectie
-    spectie.run_bin(ctx, cases, meta, impl, base, ctx.scale(1500, 12000))
+    spectie.run_bin(ctx, cases, meta, impl, base, ctx.scale(4000, 30000), corpus=True)
     # ---- [spec_tie] END
 
     # I64 tokens (C03 finding B shows through the tape path)
